@@ -6,6 +6,7 @@ import (
 	"encoding/hex"
 	"fmt"
 	"math"
+	"strings"
 	"sync"
 	"time"
 
@@ -67,10 +68,47 @@ type opData struct {
 	copies  int
 	block   bool
 	noTx    bool
+	mine    bool
 }
 
 type Driver struct {
 	nearWrap bool
+	// mined: also offer creations whose transaction is chosen so that the returned id begins with a zero byte
+	// (one id in 256 does: whatever parses, pads or trims ids meets them sooner or later)
+	mined bool
+}
+
+// minedLabels memoises, per (record counter, tx count, content, creator), the first transaction label whose
+// creation returns an id beginning with "00".
+var minedLabels = struct {
+	sync.Mutex
+	m map[string]string
+}{m: map[string]string{}}
+
+func (d *Driver) mineLabel(e *mc.Env, s *mc.State, od opData) string {
+	key := fmt.Sprintf("%d|%d|%d|%s|%d", e.Record.GetIntraTxCounter(s.Ctx), s.TxSeq, od.content, od.creator, s.Ctx.BlockHeight())
+	minedLabels.Lock()
+	l, ok := minedLabels.m[key]
+	minedLabels.Unlock()
+	if ok {
+		return l
+	}
+	for k := 0; k < 20000; k++ {
+		label := fmt.Sprintf("mined-%d", k)
+		fk := s.Fork()
+		out := fk.Deliver(e, label, recordtypes.NewMsgCreateRecord(contentsOf(od.content), mc.Addr(od.creator).String()))
+		if !out.OK {
+			break
+		}
+		if r, ok := out.Responses[0].(*recordtypes.MsgCreateRecordResponse); ok && strings.HasPrefix(r.Id, "00") {
+			l = label
+			break
+		}
+	}
+	minedLabels.Lock()
+	minedLabels.m[key] = l
+	minedLabels.Unlock()
+	return l
 }
 
 // idsSeen: every record id any path of this process has been given so far (first 256). Reading an id is a
@@ -141,6 +179,10 @@ func (d *Driver) Enabled(e *mc.Env, s *mc.State) []mc.Op {
 	// the same message executed outside a transaction (empty tx bytes, as for a passed proposal): byte-identical
 	// records in different blocks then differ in nothing but the module's own counter
 	ops = append(ops, mc.Op{Name: "create-notx(c1,A)", Data: opData{content: 0, creator: "A", copies: 1, noTx: true}})
+	if d.mined {
+		ops = append(ops, mc.Op{Name: "create-with-id-00..(c1,A)", Data: opData{content: 0, creator: "A", copies: 1, mine: true}})
+		ops = append(ops, mc.Op{Name: "create-with-id-00..(c2,B)", Data: opData{content: 1, creator: "B", copies: 1, mine: true}})
+	}
 	ops = append(ops, mc.Op{Name: "block", Data: opData{block: true}})
 	return ops
 }
@@ -162,7 +204,16 @@ func (d *Driver) Apply(e *mc.Env, s *mc.State, op mc.Op) []mc.Finding {
 	}
 	seq := s.TxSeq
 	var out mc.Outcome
-	if od.noTx {
+	label := op.Name
+	if od.mine {
+		if label = d.mineLabel(e, s, od); label == "" {
+			s.Last = "err"
+			return nil
+		}
+	}
+	if od.mine {
+		out = s.Deliver(e, label, msgs...)
+	} else if od.noTx {
 		out = s.DeliverNoTx(e, msgs...)
 	} else {
 		out = s.Deliver(e, op.Name, msgs...)
@@ -171,7 +222,7 @@ func (d *Driver) Apply(e *mc.Env, s *mc.State, op mc.Op) []mc.Finding {
 	if !out.OK {
 		return append(fs, mc.F("C19/create-rejected/"+out.Class(), "valid create rejected: %s", out))
 	}
-	txh := tmhash.Sum(mc.TxBytesFor(fmt.Sprintf("%s#%d", op.Name, seq)))
+	txh := tmhash.Sum(mc.TxBytesFor(fmt.Sprintf("%s#%d", label, seq)))
 	if od.noTx {
 		txh = tmhash.Sum(nil)
 	}
@@ -359,6 +410,11 @@ func MsgSurface() (methods []string, findings []mc.Finding) {
 	return
 }
 
+func newMined() (*mc.Env, mc.Driver) {
+	e, _ := New()
+	return e, &Driver{mined: true}
+}
+
 func restarting() (*mc.Env, mc.Driver) {
 	e, d := New()
 	return e, &mc.Restarting{Driver: d, Modules: []string{"record"}, RejectSig: "C19/restart-from-genesis-refused"}
@@ -380,6 +436,7 @@ func Parts() []mc.Part {
 		mc.ExplorePart("search-near-counter-wrap", NewNearWrap, 5, 6, true, "as search; the record counter starts at 2^32-3"),
 		// a history may contain a restart of the chain from its own exported genesis: what was created must still be
 		// there afterwards (a module refusing its own export leaves a chain that cannot come back at all)
+		mc.ExplorePart("search-ids-with-leading-zero-byte", newMined, 4, 5, true, "as search, plus creations whose transaction is picked so that the returned id begins with a zero byte"),
 		mc.ExplorePart("search-restarting", restarting, 5, 6, true, "as search, plus restart-from-genesis as an operation"),
 		surface,
 	}
